@@ -125,6 +125,11 @@ def atom_optional(spec: dict, atom: dict) -> bool:
 def render_tree(spec: dict, tree: Optional[dict], top: bool = True) -> str:
     if tree is None:
         return ''
+    if 'fam' in tree:
+        # family trigger: rendered as FAM:<qualifier>, modelled as the
+        # AND / OR over its members (tree['args'])
+        opt = atom_optional(spec, tree['args'][0])
+        return f"{tree['fam']}:{tree['q']}" + ('?' if opt else '')
     if 'op' in tree:
         inner = f' {tree["op"]} '.join(
             render_tree(spec, a, False) for a in tree['args'])
@@ -246,7 +251,7 @@ def wfspecs(draw, profile: Optional[dict] = None):
         'custom': True, 'optional': True, 'abs': True, 'future': True,
         'excl': True, 'multi_sections': True, 'datetime': True,
         'retries': False, 'fail_required': False, 'submit_opt': True,
-        'min_tasks': 2,
+        'min_tasks': 2, 'families': False,
     }
     pf.update(profile or {})
     icp = 1
@@ -384,7 +389,61 @@ def wfspecs(draw, profile: Optional[dict] = None):
                     'exec': draw(st.integers(0, 2)),
                     'submit': draw(st.integers(0, 2))}
     _repair(spec)
+    if pf['families'] and draw(st.integers(0, 3)) == 0:
+        _add_family_trigger(draw, spec)
     return spec
+
+
+FAM_QUALS = {
+    # qualifier -> (member output, all?, needs optional success)
+    'succeed-all': ('succeeded', True, False),
+    'succeed-any': ('succeeded', False, False),
+    'start-all': ('started', True, False),
+    'start-any': ('started', False, False),
+    'finish-all': ('finished', True, True),
+    'finish-any': ('finished', False, True),
+    'fail-all': ('failed', True, True),
+    'fail-any': ('failed', False, True),
+}
+
+
+def _add_family_trigger(draw, spec) -> None:
+    """Put 2-3 tasks of one section into family FAM and add a consumer task
+    `zf` triggered by `FAM:<qualifier>` in that section (same cycle)."""
+    from vf.sim import model
+    if 'zf' in spec['tasks'] or spec['extra'].get('families'):
+        return
+    cands = []
+    for si, sec in enumerate(spec['sections']):
+        inside = []
+        for t in spec['tasks']:
+            here = any(t in ln['rhs'] for ln in sec['lines']) or any(
+                a['t'] == t and not a.get('off') and a.get('abs') is None
+                for ln in sec['lines'] for a in atoms_of(ln['lhs']))
+            if here and not spec['opt'][t].get('fail_required'):
+                inside.append(t)
+        for flag in (False, True):
+            grp = [t for t in inside if bool(spec['opt'][t].get('succ')) == flag]
+            if len(grp) >= 2:
+                cands.append((si, flag, grp))
+    if not cands:
+        return
+    si, flag, grp = draw(st.sampled_from(cands))
+    k = draw(st.integers(2, min(3, len(grp))))
+    members = draw(st.lists(st.sampled_from(grp), min_size=k, max_size=k,
+                            unique=True))
+    members.sort(key=spec['tasks'].index)
+    quals = [q for q, (_o, _a, need) in FAM_QUALS.items() if flag or not need]
+    q = draw(st.sampled_from(quals))
+    out, is_all, _need = FAM_QUALS[q]
+    node = {'fam': 'FAM', 'q': q, 'op': '&' if is_all else '|',
+            'args': [{'t': m, 'off': None, 'abs': None, 'out': out,
+                      'implicit': False, 'longform': False} for m in members]}
+    spec['tasks'].append('zf')
+    spec['opt']['zf'] = {'succ': False, 'submit': False,
+                         'fail_required': False, 'custom': {}}
+    spec['extra']['families'] = {'FAM': members}
+    spec['sections'][si]['lines'].append({'lhs': node, 'rhs': ['zf']})
 
 
 def _draw_output(draw, spec, t, pf) -> str:
